@@ -41,6 +41,11 @@ def param_idx(v, ty_suffix):
     return None
 
 
+def noidx(proj):
+    """Projection without index elements (`funds[0].amount`, `funds.first().amount` and `[fund] = funds` all read funds.amount)."""
+    return tuple(x for x in proj if not (isinstance(x, str) and x.startswith("[")))
+
+
 def is_param_field(pidx, *proj):
     return lambda os_: bool(os_) and all(o.kind == "param" and o.a == pidx and tuple(o.proj) == tuple(proj) for o in os_)
 
@@ -58,7 +63,7 @@ def check_validate_funds(ctx, model):
         nz = nonzero_edges(v, b, c)
         if nz is not None and c.kind == "cmp":
             ox = v.origins_of_operand(nz[0], at=nz[1])
-            if ox and all(o.kind == "param" and o.a == info and tuple(o.proj) == ("funds", "amount") for o in ox):
+            if ox and all(o.kind == "param" and o.a == info and noidx(o.proj) == ("funds", "amount") for o in ox):
                 atoms["non-zero"] = (b, nz[3])
                 continue
         if c.kind == "cmp":
@@ -66,12 +71,17 @@ def check_validate_funds(ctx, model):
             oa = v.origins_of_operand(c.a, at=at)
             ob = v.origins_of_operand(c.b, at=at)
             ka, kb = const_of(v, c.a, at), const_of(v, c.b, at)
-            funds_len = lambda os_: bool(os_) and all(o.kind == "call" and o.a == "std::vec::Vec::len" for o in os_)
-            f_amt = lambda os_: bool(os_) and all(o.kind == "param" and o.a == info and tuple(o.proj) == ("funds", "amount") for o in os_)
-            f_den = lambda os_: bool(os_) and all(o.kind == "param" and o.a == info and tuple(o.proj) == ("funds", "denom") for o in os_)
+            # the number of coins sent: `funds.len()` or the length a slice pattern `let [fund] = funds.as_slice()` tests
+            def funds_len(os_, op):
+                if not os_ or not all((o.kind == "call" and o.a in ("std::vec::Vec::len", "std::slice::len")) or
+                                      (o.kind == "arith" and o.a == "PtrMetadata") for o in os_):
+                    return False
+                return any(x.kind == "param" and x.a == info and noidx(x.proj)[:1] == ("funds",) for x in v.origins_of_operand(op, at=at, taint=True))
+            f_amt = lambda os_: bool(os_) and all(o.kind == "param" and o.a == info and noidx(o.proj) == ("funds", "amount") for o in os_)
+            f_den = lambda os_: bool(os_) and all(o.kind == "param" and o.a == info and noidx(o.proj) == ("funds", "denom") for o in os_)
             d_amt = lambda os_: bool(os_) and all(o.kind == "param" and o.a == asset and tuple(o.proj) == ("amount",) for o in os_)
             d_den = lambda os_: bool(os_) and all(o.kind == "param" and "String" in v.local_ty(o.a) and not o.proj for o in os_)
-            if c.op in ("!=", "==") and ((funds_len(oa) and kb == 1) or (funds_len(ob) and ka == 1)):
+            if c.op in ("!=", "==") and ((funds_len(oa, c.a) and kb == 1) or (funds_len(ob, c.b) and ka == 1)):
                 atoms["one-coin"] = (b, te if c.op == "!=" else fe)
             elif c.op in ("!=", "==") and ((f_amt(oa) and d_amt(ob)) or (f_amt(ob) and d_amt(oa))):
                 atoms["amount-equal"] = (b, te if c.op == "!=" else fe)
@@ -79,7 +89,7 @@ def check_validate_funds(ctx, model):
                 atoms["denom-equal"] = (b, te if c.op == "!=" else fe)
         elif c.kind == "call":
             a0 = v.origins_of_operand(c.term["args"][0], at=v.at_term(c.block)) if c.term["args"] else set()
-            if c.callee.endswith("Uint128::is_zero") and a0 and all(o.kind == "param" and o.a == info and tuple(o.proj) == ("funds", "amount") for o in a0):
+            if c.callee.endswith("Uint128::is_zero") and a0 and all(o.kind == "param" and o.a == info and noidx(o.proj) == ("funds", "amount") for o in a0):
                 atoms["non-zero"] = (b, fe if c.neg else te)
             elif c.callee.endswith("Uint128::is_zero"):
                 pass
@@ -257,40 +267,77 @@ def check_withdraw(ctx, model):
     v = ctx.view(WITHDRAW, "C08-B4")
     if v is None:
         return
-    removes = storage_calls(v, "whale_lair::state::UNBOND", ("remove",))
-    adds = [(b, t) for b, t in v.calls_to(r"cosmwasm_std::Uint128::checked_add$")
-            if any(o.proj and o.proj[-2:] == ("asset", "amount") for o in arg_origins(v, b, t, 1))]
+    # the body that releases a record: the `for` loop of the handler, or the closure of a fold over the records
+    from .common import scope_views, scope_origins
+    from ..guards import resolve as _resolve
+    body = None
+    for sv_, ch_ in scope_views(model, WITHDRAW):
+        if storage_calls(sv_, "whale_lair::state::UNBOND", ("remove",)):
+            body = (sv_, ch_)
+            break
+    if body is None:
+        ctx.missing("C08-B4", "UNBOND.remove / refund accumulation in withdraw")
+        return
+    sv, chain = body
+    res = lambda os_: _resolve(model, chain, sv, os_, elems=True)
+    removes = storage_calls(sv, "whale_lair::state::UNBOND", ("remove",))
+    adds = [(b, t) for b, t in sv.calls_to(r"cosmwasm_std::Uint128::checked_add$")
+            if any(o.proj and noidx(o.proj)[-2:] == ("asset", "amount") for o in res(arg_origins(sv, b, t, 1)))]
     if not removes or not adds:
         ctx.missing("C08-B4", "UNBOND.remove / refund accumulation in withdraw")
         return
     for rb, rt in removes:
         for ab, at_ in adds:
-            together = must_pass_through(v, ab, [rb]) and (rb in v.reach_strict(ab))
+            together = must_pass_through(sv, ab, [rb]) and (rb in sv.reach_strict(ab))
             # and once the add happened the remove cannot be skipped on the way to the next iteration / exit
-            skip = v.reachable(ab, cut_blocks=[rb])
-            rets = set(v.return_blocks())
+            skip = sv.reachable(ab, cut_blocks=[rb])
             # paths from the add that avoid the remove must be error paths only (do not reach the Ok value)
-            okb = set(ok_value_blocks(v))
+            okb = set(ok_value_blocks(sv))
             ctx.ob("C08-B4", "%s|refund-and-remove-together" % WITHDRAW, together and not (skip & okb),
                    "refund += amount (bb%d) and UNBOND.remove (bb%d): remove only after add: %s; add without remove reaching success: %s"
-                   % (ab, rb, together, bool(skip & okb)), v.where(rb))
+                   % (ab, rb, together, bool(skip & okb)), sv.where(rb))
     # the record removed is the record paid: its time key is the key the range iteration yielded for it (element .0 of the
     # (key, record) pair), not something rebuilt from the record's fields in another unit
     for rb, rt in removes:
-        ko = v.origins_of_operand(rt["args"][2], proj=("2",), at=v.at_term(rb))
-        ok_key = bool(ko) and all(o.kind in ("load", "call") and o.proj and o.proj[-1] == "0" and "timestamp" not in o.proj for o in ko)
+        ko = scope_origins(model, chain, sv, rt["args"][2], sv.at_term(rb), proj=("2",))
+        ok_key = bool(ko) and all(o.kind in ("load", "call") and o.proj and noidx(o.proj)[-1:] == ("0",) and "timestamp" not in o.proj for o in ko)
         ctx.ob("C08-B4", "%s|removes-under-the-iterated-key" % WITHDRAW, ok_key,
-               "UNBOND.remove time key from %s (must be the key yielded by the range iteration)" % sorted(map(repr, ko)), v.where(rb))
+               "UNBOND.remove time key from %s (must be the key yielded by the range iteration)" % sorted(map(repr, ko)), sv.where(rb))
     # maturity
     ts = param_idx(v, "cosmwasm_std::Timestamp")
-    x = lambda os_: call_shape(v, os_, r"^cosmwasm_std::Timestamp::minus_nanos$",
-                               [lambda a: bool(a) and all(o.kind == "param" and o.a == ts for o in a),
-                                lambda a: bool(a) and all(o.kind == "load" and tuple(o.proj) == ("unbonding_period",) for o in a)])
+
+    def x_in(w, wres):
+        return lambda os_: call_shape(w, os_, r"^cosmwasm_std::Timestamp::minus_nanos$",
+                                      [lambda a: bool(a) and all(o.kind == "param" and o.b == WITHDRAW and o.a == ts for o in wres(a)),
+                                       lambda a: bool(a) and all(o.kind == "load" and tuple(o.proj) == ("unbonding_period",) for o in wres(a))])
     y = lambda os_: bool(os_) and all(o.proj and o.proj[-1] == "timestamp" for o in os_)
-    tab, n, blocks = two_var_table(v, x, y, [b for b, _ in removes])
+    tab, n, blocks = two_var_table(sv, x_in(sv, res), lambda os_: y(res(os_)), [b for b, _ in removes])
     exp = {"<": False, "=": True, ">": True}
+    if n == 0:
+        # the maturity test as the predicate of a `.filter(..)` in front of the fold: an element reaches the body iff the
+        # closure returns true, and the closure returns the comparison
+        from ..mir import resolve_bool
+        from ..dataflow import cmp_truth, REGIONS, FLIP
+        for fv, fch in scope_views(model, WITHDRAW):
+            if fv is sv or not fch:
+                continue
+            fres = lambda os_, fv=fv, fch=fch: _resolve(model, fch, fv, os_, elems=True)
+            for rb_ in fv.return_blocks():
+                c = resolve_bool(fv, {"k": "copy", "pl": {"l": 0, "p": []}}, at=fv.at_term(rb_))
+                if c.kind != "cmp" or c.b is None:
+                    continue
+                at = cond_at(fv, c)
+                oa, ob = fv.origins_of_operand(c.a, at=at), fv.origins_of_operand(c.b, at=at)
+                if x_in(fv, fres)(oa) and y(fres(ob)):
+                    op = c.op
+                elif x_in(fv, fres)(ob) and y(fres(oa)):
+                    op = FLIP[c.op]
+                else:
+                    continue
+                tab = {r: cmp_truth(op, r) for r in REGIONS}
+                n = 1
     ctx.ob("C08-B4", "%s|maturity" % WITHDRAW, n > 0 and tab == exp,
-           "record released for (now - period) vs record time: %s; documented %s" % (tab, exp), v.where())
+           "record released for (now - period) vs record time: %s; documented %s" % (tab, exp), sv.where())
     # the payout
     addr = param_idx(v, "cosmwasm_std::Addr")
     sends = [(b, i, s) for b, i, s in v.iter_stmts() if s["rv"]["r"] == "agg" and s["rv"].get("adt") == "cosmwasm_std::BankMsg" and s["rv"].get("variant") == "Send"]
@@ -301,7 +348,8 @@ def check_withdraw(ctx, model):
         to = v.origins_of_operand(f["to_address"], at=(b, i))
         amt = v.origins_of_operand(f["amount"], at=(b, i), taint=True)
         ok_to = bool(to) and all(o.kind == "param" and o.a == addr and not o.proj for o in to)
-        ok_amt = any(o.kind == "call" and o.a.endswith("Uint128::checked_add") for o in amt)
+        ok_amt = any(o.kind == "call" and o.a.endswith("Uint128::checked_add") for o in amt) or (
+            bool(chain) and any(o.kind == "call" and re.search(r"Iterator>::(try_)?fold$", o.a) for o in amt))
         tainted, sinks, ret = forward_flow(v, [s["lhs"]["l"]])
         ctx.ob("C08-B4", "%s|payout" % WITHDRAW, ok_to and ok_amt and bool(sinks),
                "refund goes to %s (must be the address parameter), amount accumulated by checked_add: %s, attached: %s"
